@@ -231,3 +231,18 @@ reg('C15',
     level_text='The stated product is enumerated completely; every access outside the caller buffer traps under ASan, and termination / returned length are checked on every call.',
     level_note='quick = thorough for the default and built-in-formatter builds; thorough adds the static-heap build',
     design_ref='DESIGN.md section 3 / C15')
+
+reg('C17',
+    title='binary results are valid definite-length blocks in the requested byte order',
+    src='c17_blocks.c',
+    configs={'quick': ['def'], 'thorough': ['def']},
+    deadline={'quick': 100, 'thorough': 900},
+    level=MC,
+    technique='bounded-exhaustive enumeration of result calls (element type x count x format x pattern; block lengths; every short header/data call script) inside a real query handler (ASan), byte-exact comparison with an independent block encoder',
+    rule={'quick': 'arrays: 10 element types x every count 0..300 x {NORMAL, SWAPPED} x 4 value patterns (+ uint16[40000], int64[9000]) each followed by SCPI_ResultInt32; SCPI_ResultArbitraryBlock of every length 0..1100 x 3 byte patterns and 65535 / 65536 / 70000 bytes, one-shot and streamed; header-only calls for 10^k-1, 10^k, 10^k+1 (k <= 8) and 999999999; every sane script of <= 5 calls over {Header(0,1,2,4), Data(0..3)} incl. over-length data and abandoned blocks; non-trivial = case whose output matched the encoder byte for byte and whose refusals were counted',
+          'thorough': 'counts 0..2000, scripts of <= 6 calls'},
+    assumptions=['little-endian host (the only one available): NORMAL exercises the swapping path, SWAPPED the native path',
+                 'zero-length data without an open block is handler misuse and not generated'],
+    level_text='Exhaustive over the stated counts, lengths and call scripts: header digits, byte order, refusal of over-length data with -310, and item accounting (comma only after a completed block) are compared for every case.',
+    level_note='lengths >= 10^9 are outside the statement',
+    design_ref='DESIGN.md section 3 / C17')
